@@ -20,7 +20,7 @@ from ..sexp import Sym, dumps, line as sx
 META = dict(
     text="Lean theorems (PPProofs/Props/C10.lean) prove, for ALL value types, ALL states satisfying PRInv (unique keys, "
          "no empty occurrence list; established by the constructor and kept by every operation: prinv_of_ctor, "
-         "prinv_of_reinit, prinv_step) and ALL finite histories of the 31 modelled operations, that the transcribed "
+         "prinv_of_reinit, prinv_step; reinit_refines: naming an existing result adds one value and keeps all other names and list-all flags) and ALL finite histories of the 31 modelled operations, that the transcribed "
          "ParseResults refines a plain list + ordered multimap + list-all set (refines_step, refines_history: same "
          "abstract state and same return value / exception class after every step), full strength on the model; "
          "corollaries list_ops_keep_names (= del_insert_keep_names; del/insert/pop/append/extend/slice-assign never "
@@ -46,6 +46,7 @@ THEOREMS = [
     "PP.PR.refines_history",
     "PP.PR.prinv_of_ctor",
     "PP.PR.prinv_of_reinit",
+    "PP.PR.reinit_refines",
     "PP.PR.list_ops_keep_names",
     "PP.PR.del_insert_keep_names",
     "PP.PR.unknown_attr_empty",
